@@ -4,6 +4,7 @@ import Model.Arpa
 import Model.Table
 import Model.State
 import Model.Score
+import Model.ProbingLM
 /-! Driver for stream `lm-query` (C01/C02/C03): parses THE SAME ARPA BYTES the harness loads and prints,
 per query word, the exact L0 spec score plus the L1 algorithm's results (FullScore from the running
 state, FullScoreForgotState with the whole history, GetState of the new history).
@@ -47,6 +48,15 @@ def memoTable (a : Arpa) : Table × Nat × Bool :=
       | some t => some t
       | none => T0.lookup g }, blanks, proper)
 
+/-- run-time check of the injectivity hypothesis of `probing_refines`: the chained 64-bit hashes
+(`CombineWordHash` over the probing word ids) of all table keys of each order ≥ 2 are pairwise distinct and
+different from the invalid key 0 -/
+def hashInjective (a : Arpa) : Bool :=
+  let ks := (keys a).filter (fun g => g.length ≥ 2)
+  let hs := ks.map fun g => (g.length, KV.ProbingLM.hashOf KV.ProbingLM.combineReal g)
+  let set : Std.HashSet (Nat × Nat) := hs.foldl (fun m x => m.insert x) {}
+  set.size == hs.length && hs.all (fun x => x.2 != 0)
+
 def load (maxOrder : Nat) (path : String) : IO (Except String (Loaded × String)) := do
   let bytes ← IO.FS.readBinFile path
   match parse maxOrder (-100) bytes.toList with
@@ -63,6 +73,7 @@ def load (maxOrder : Nat) (path : String) : IO (Except String (Loaded × String)
       " real=" ++ joinOr ((List.range a.order).map fun n => toString (a.entries.filter fun p => p.1.length == n + 1).length) ++
       " blank=" ++ joinOr ((List.range a.order).map fun n => toString ((keys a).filter fun g => g.length == n + 1 && !a.isReal g).length) ++
       " nzbo=" ++ joinOr ((List.range a.order).map fun n => toString (a.entries.filter fun p => p.1.length == n + 1 && p.2.backoff != 0).length) ++
+      " hashinj=" ++ b2s (hashInjective a) ++
       " proper=" ++ b2s proper ++ " distinct=" ++ b2s a.keysDistinct ++ " unk=" ++ b2s (!a.unkHallucinated)
     return .ok (L, info)
 
